@@ -10,6 +10,7 @@ import SkgVerif.Gen.Tables
 import SkgVerif.Gen.DirectionExec
 import SkgVerif.Model.CacheMachine
 import SkgVerif.Model.SpaceTime
+import SkgVerif.Model.Propagate
 import SkgVerif.Gen.ModelsExec
 import SkgVerif.Gen.STModelsExec
 /-!
@@ -325,6 +326,16 @@ def handleC14 : List String → Option String
       let z ← parseOptRats z
       let s := stSamples xb tb z
       some s!"ok|{fmtList fmtRat (s.map (·.1))}|{fmtList fmtRat (s.map (·.2.1))}|{fmtList fmtRat (s.map (·.2.2))}"
+  | _ => none
+
+
+def handleC19 : List String → Option String
+  | ["bounds", q, xs] => do
+      let q ← parseRat q.trimAscii.toString
+      let xs ← parseRats xs
+      let b := bounds xs q
+      let d := boundsDefect xs q
+      some s!"ok|{fmtRat b.1} {fmtRat b.2.1} {fmtRat b.2.2}|{fmtRat d.1} {fmtRat d.2.1} {fmtRat d.2.2}"
   | _ => none
 
 end Skg
